@@ -123,7 +123,7 @@ func c05CloseOrd(f []string) string {
 		ch <- n
 	}
 	close(ch)
-	lines := 0
+	lines, ahead := 0, 0
 	var b *batchers.Batcher
 	logger.DeferLogs() // the missing names are reported through the logger: keep them off the harness' stderr
 	defer func() {
@@ -180,10 +180,15 @@ func c05CloseOrd(f []string) string {
 			lines = -1
 		}
 	} else {
-		b = batchers.OpenFilesToChan(ch, false, readers, 10, 2)
+		// unbuffered batch channel: a send completes exactly when this loop receives, so every incReadBytes executed so
+		// far belongs to a batch already counted here (Props close_running_status_bounds: readBytes <= sentBytes)
+		b = batchers.OpenFilesToChan(ch, false, readers, 10, 0)
 		bp.Store(b)
 		for batch := range b.BatchChan() {
 			lines += len(batch.Batch)
+			if b.ReadBytes() > uint64(5*lines) { // every line of every file is 5 bytes ("line\n")
+				ahead = 1
+			}
 		}
 	}
 	after := b.ActiveFileCount()
@@ -210,8 +215,8 @@ func c05CloseOrd(f []string) string {
 	if readers != 0 { // every byte of every file (follow mode: what was appended right before the removal may be cut off)
 		bytesOK = bytesOK && bytesAtClose == total
 	}
-	return fmt.Sprintf("ok lag=%d after=%d status=%d status_after=%d errors=%d bytes=%d held=%d",
-		lagAtClose, after, wantStatus(statusAtClose), wantStatus(b.StatusString()), errsAtClose, b2i(bytesOK), atomic.LoadInt32(&held))
+	return fmt.Sprintf("ok lag=%d after=%d status=%d status_after=%d errors=%d bytes=%d ahead=%d held=%d",
+		lagAtClose, after, wantStatus(statusAtClose), wantStatus(b.StatusString()), errsAtClose, b2i(bytesOK), ahead, atomic.LoadInt32(&held))
 }
 
 func c05CloseOrdGen(r *Rand, tier string) []string {
